@@ -124,6 +124,9 @@ def cases(ctx):
         prm = rng.choice(ps)
         if op == "FuzzyWeightedUnion" and any(d in ("int8", "int16") for d in dts) and rng.random() < 0.6:
             prm = {"Weights": [float(rng.choice([60, 40, 30, 100, 7])) for _ in range(n)]}      # whole-valued decimals: decimals all the same
+        if r % 10 == 0:
+            # crisp whole-number layers only, weights that are not whole numbers
+            op, prm = "FuzzyWeightedUnion", {"Weights": [rng.choice([1.5, 0.5, 0.25, 0.75, 2.5]) for _ in range(n)]}
         yield {"kind": "sampled", "n": n, "op": op, "params": prm, "shape": [400], "order": order, "count": 400, "rseed": rng.randrange(10 ** 9), "dtypes": dts}
     # a field that is fully true (or fully false) everywhere, listed before fields with missing cells
     for r in range(ctx.n(24, 1000)):
